@@ -30,7 +30,7 @@ struct SimSock : Poco::Net::StreamSocketImpl
 	sim::Rng rng; NetCfg cfg; const char *name = "sock";
 	SimSock *peer = nullptr; Link *link = nullptr; int64_t last_deliv = 0;
 	int eagain_left = 0; std::string peer_ip = "127.0.0.1";
-	bool connect_ok = true; uint64_t rx_total = 0;
+	bool connect_ok = true; int refuse_left = 0; uint64_t rx_total = 0;   // refuse_left: the next N connect() calls are refused
 
 	explicit SimSock(uint64_t seed = 1) : rng(seed) {}
 
@@ -60,7 +60,7 @@ struct SimSock : Poco::Net::StreamSocketImpl
 		if (ts.totalMicroseconds() > 0) sim::block_on(this, ts.totalMicroseconds() * 1000);
 		return !rx.empty() || rx_eof || closed || reset;
 	}
-	void connect(const Poco::Net::SocketAddress&, const Poco::Timespan&) override { if (!connect_ok) { sim::count("net_connect_refused"); throw Poco::Net::ConnectionRefusedException("simulated"); } }
+	void connect(const Poco::Net::SocketAddress&, const Poco::Timespan&) override { if (refuse_left > 0) { --refuse_left; sim::count("net_connect_refused"); throw Poco::Net::ConnectionRefusedException("simulated"); } if (!connect_ok) { sim::count("net_connect_refused"); throw Poco::Net::ConnectionRefusedException("simulated"); } }
 	void connect(const Poco::Net::SocketAddress&) override { if (!connect_ok) { sim::count("net_connect_refused"); throw Poco::Net::ConnectionRefusedException("simulated"); } }
 	void shutdown() override { closed = true; if (sim::in_world()) sim::wake_all(this); }
 	void shutdownReceive() override { closed = true; if (sim::in_world()) sim::wake_all(this); }
